@@ -8,6 +8,7 @@
 -/
 import AcnModel.Wire
 import AcnModel.Sites
+import AcnModel.Gen.SitesSrc
 import AcnModel.SimpleAcn
 open Lean Acn Acn.Wire Acn.Sites Acn.Gen.Sites
 
@@ -18,6 +19,28 @@ def errName : SiteErr → String
   | .badAngle j => s!"badAngle:{j}"
   | .unknownLimit i => s!"unknownLimit:{i}"
   | .shape => "shape"
+
+/-- two limits denote the same function of the capacities (literal = literal; same capacity, same normal form) -/
+def sameLim (a b : Lim) : Bool :=
+  match a, b with
+  | .const n d, .const n' d' => n * (d' : Int) == n' * (d : Int) && d != 0 && d' != 0
+  | .ofCap k ops, .ofCap k' ops' =>
+    k == k' && (match normOps ops, normOps ops' with
+      | some (N, D, odd), some (N', D', odd') => N * D' == N' * D && odd == odd' && D != 0 && D' != 0
+      | _, _ => false)
+  | _, _ => false
+
+/-- The topology the driver EVALUATES: the limits of `T` in the source's operation order when the AST hint
+    (`Gen/SitesSrc.lean`) has a chain for every row that denotes the same monomial — then the doubles of the source
+    are reproduced bit for bit —, `T` itself otherwise.  Exact-arithmetic meaning identical by `sameLim`. -/
+def withSrcOrder (T : Topo) : Topo :=
+  match topos.findIdx? (· == T) with
+  | none => T
+  | some k =>
+    match Acn.Gen.SitesSrc.srcLims[k]? with
+    | some ls =>
+      if ls.length == T.lims.length && (List.zip T.lims ls).all (fun (a, b) => sameLim a b) then { T with lims := ls } else T
+    | none => T
 
 def perPeriod (S : List (List Float)) (f : List Float → Float) : List Float :=
   (List.range (Feas.periods S)).map fun t => f (period S t)
@@ -41,7 +64,7 @@ def handleSimple (j : Json) : Except String Json := do
       | some c => pure c
       | none => SimpleAcn.defaultK Gen.SimpleAcn.defaultCap
     pure (v, c)
-  let shapeOk := ("body_shape_ok", jB Gen.SimpleAcn.bodyShapeOk)
+  let shapeOk := ("limit_fitted", jB Gen.SimpleAcn.limitMono.isSome)
   match args with
   | .error e => pure (Json.mkObj [("err", jS e.name), shapeOk])
   | .ok (v, c) =>
@@ -78,9 +101,11 @@ def handleSite (j : Json) : Except String Json := do
   let volt ← getF j "voltage"
   match topos.find? (fun T => T.site == site && (ratK T.nominalV.1 T.nominalV.2 : Float) == volt) with
   | none => pure (Json.mkObj [("err", jS "no such topology in the dump")])
-  | some T =>
+  | some T0 =>
+    let T := withSrcOrder T0
     let static : List (String × Json) :=
-      [("structure_ok", jB (topoOk T)), ("structure_diag", jList jS ((topoDiag T).take 12)), ("stations", jList jS T.stations), ("names", jList jS T.conNames),
+      [("structure_ok", jB (topoOk T0)), ("structure_diag", jList jS ((topoDiag T0).take 12)),
+       ("source_order", jB (T.lims != T0.lims)), ("stations", jList jS T.stations), ("names", jList jS T.conNames),
        ("angles", jList (fun (a : Int × Nat) => Json.arr #[jI a.1, jN a.2]) T.angles)]
     match siteNet T r3 caps with
     | .error e => pure (Json.mkObj (("err", jS (errName e)) :: static))
